@@ -44,9 +44,12 @@ type Config struct {
 	UnbondingSecs int64  `json:"unbonding_secs"`
 	MaxValidators uint32 `json:"max_validators"`
 	EdgeKeys      bool   `json:"edge_keys,omitempty"` // validators 0 and 1 use external addresses starting with 0xff / 0x00
+	EdgeOper      bool   `json:"edge_oper,omitempty"` // validator 0 / 1: operator and orchestrator ACCOUNT addresses starting with 0xff / 0x00
 	HolderTier    []int  `json:"holder_tier"`         // per user: -1 none, else tier index 0..5 (value exactly at tier), 6+ = just below tier k-6
 	WithPrices    bool   `json:"with_prices"`         // oracle prices present at genesis
 	UserFunds     string `json:"user_funds"`          // hub-side initial balance per bridged denom (backed by pre-locked custody)
+	// SignedSignerSetTxsWindow in blocks (0 = the default 10000, under which the pruning of old signer sets never runs in a simulated history)
+	SignerSetWindow uint64 `json:"signer_set_window,omitempty"`
 }
 
 func (c *Config) ChainIdx(chain string) int {
@@ -170,15 +173,25 @@ func GenConfig(r *rand.Rand, profile string) Config {
 		c.Stakes[0] = 5_000_000_000 + r.Int63n(1_000_000_000)
 		c.Stakes[c.NVals-1] = 1
 	}
-	if r.Intn(16) == 0 {
+	if r.Intn(10) == 0 {
 		// a bond coin with 18 decimals: the same proportions with consensus powers around 2^48 and beyond
+		// (1 coin = 10^12 power units at the default power reduction; Tendermint caps the total at 2^63/8 ~ 1.15e18)
+		scale := pick(r, []int64{300_000_000_000, 10_000_000_000_000, 1_000_000_000_000_000})
+		var sum int64
+		for i := range c.Stakes {
+			sum += c.Stakes[i]
+		}
+		for sum > 0 && scale > 1_000_000_000_000_000_000/sum {
+			scale /= 10
+		}
 		for i := range c.Stakes {
 			if c.Stakes[i] < 1_000_000 {
-				c.Stakes[i] *= 300_000_000_000
+				c.Stakes[i] *= scale
 			}
 		}
 	}
 	c.EdgeKeys = r.Intn(6) == 0
+	c.EdgeOper = r.Intn(6) == 0
 	c.Keys = make([][]bool, c.NVals)
 	for v := range c.Keys {
 		c.Keys[v] = make([]bool, len(Chains))
@@ -257,6 +270,9 @@ func GenConfig(r *rand.Rand, profile string) Config {
 	c.UserFunds = pick(r, []string{"1000000000000000000000", "1000000000000000000000000", "1000"})
 	if r.Intn(8) == 0 {
 		c.UserFunds = "1393796574908163946345982392040522594123776" // 2^140: fees and amounts beyond 2^128 become affordable
+	}
+	if r.Intn(2) == 0 {
+		c.SignerSetWindow = pick(r, []uint64{1, 2, 5, 15})
 	}
 	return c
 }
